@@ -474,3 +474,51 @@ register(Obligation(name="C03.transforms.list_with_one_shifted_kpoint", prop=PRO
                     run=NativeCases(nat_single_kpoint_list, "k-point lists with one shifted k-point: transforms use that k-point's active set, inverse and adjoint pairs"),
                     functions=["eminus.operators:I", "eminus.operators:J", "eminus.operators:Idag", "eminus.operators:Jdag", "eminus.utils:handle_k"],
                     doc="BOUNDED: transforms of a one-entry k-point list (restricted basis) act as the explicit ik = 0 calls: mutual inverses, mutual adjoints"))
+
+
+def nat_rebuilt_after_kpoint_change(rng):
+    """An Atoms object that was built, whose k-points were then changed (time-reversal reduction of a Monkhorst-Pack mesh; a new shift) and that was built
+    AGAIN: for every k-point of the NEW set the Laplacian is -Omega |G + k|^2 and the preconditioner 1 / (1 + |G + k|^2), with |G + k|^2 formed from
+    atoms.G and kpts.k directly (tables and masks follow the k-points at every build)."""
+    import eminus
+    from eminus import Atoms
+
+    eminus.config.backend = "numpy"
+    eminus.config.verbose = "critical"
+    bad = []
+    for name, change in (("build(); kpts.trs(); build()", lambda at: at.kpts.trs()),
+                         ("build(); kpts.kshift = [0.1, 0.2, 0]; build()", lambda at: setattr(at.kpts, "kshift", [0.1, 0.2, 0.0])),
+                         ("build(); kpts.kmesh = [1, 1, 3]; build()", lambda at: setattr(at.kpts, "kmesh", [1, 1, 3]))):
+        at = Atoms("He", [[0.1, 0.2, 0.3]], ecut=3, a=[[4.0, 0.3, 0.1], [0.2, 4.5, 0.4], [0.5, 0.1, 5.0]])
+        at.s = [7, 6, 5]
+        at.kpts.kmesh = [2, 2, 1]
+        at.kpts.gamma_centered = False
+        at.build()
+        change(at)
+        at.build()
+        Nk = at.kpts.Nk
+        if len(at.Gk2c) not in (Nk, Nk + 1) or len(at.active) != Nk + 1:
+            bad.append(dict(history=name, Nk=Nk, tables=len(at.Gk2c)))
+            continue
+        for ik in range(Nk):
+            act = np.asarray(at.active[ik][0])
+            g2_all = np.sum((np.asarray(at.G) + np.asarray(at.kpts.k)[ik]) ** 2, axis=1)
+            want_act = np.nonzero(g2_all <= 2 * at.ecut)[0]
+            if len(act) != len(want_act) or np.any(act != want_act):
+                bad.append(dict(history=name, k_point=ik, clause="cut-off mask is not |G + k|^2 / 2 <= ecut for the current k-point"))
+                continue
+            g2 = g2_all[act]
+            w = rnd(rng, len(g2), 2)
+            e1 = float(np.abs(np.asarray(at.L(w, ik)) + at.Omega * g2[:, None] * w).max())
+            e2 = float(np.abs(np.asarray(at.K(w, ik)) - w / (1 + g2[:, None])).max())
+            wf = rnd(rng, at.Ns, 2)
+            e3 = float(np.abs(np.asarray(at.L(wf, ik)) + at.Omega * g2_all[:, None] * wf).max())
+            if max(e1, e2, e3) > 1e-9:
+                bad.append(dict(history=name, k_point=ik, L_cut_off_basis=e1, K=e2, L_full_basis=e3))
+    return bad
+
+
+register(Obligation(name="C03.L_K.tables_follow_the_kpoints_at_every_build", prop=PROP, engine="B", bounded=True,
+                    run=NativeCases(nat_rebuilt_after_kpoint_change, "after build(); change of the k-points; build(): L, K and the cut-off masks belong to the new k-points"),
+                    functions=["eminus.atoms:Atoms.build", "eminus.atoms:Atoms._sample_unit_cell", "eminus.operators:L", "eminus.operators:K"],
+                    doc="BOUNDED: Laplacian / preconditioner / cut-off masks of a re-built Atoms object belong to its current k-points (trs, new shift, new mesh)"))
